@@ -542,7 +542,7 @@ pub struct NonsymBattery {
     pub scaled_dual_ok: bool,
     pub grad_dual: Vec<f64>,      // gradient of the dual barrier at z, as the cone stores it
     pub h_dual: Vec<Vec<f64>>,    // Hessian of the dual barrier at z (columns of mul_Hs under dual scaling with mu = 1)
-    pub grad_primal: Vec<f64>,    // gradient of the primal barrier at s (3-dimensional cones only)
+    pub grad_primal: Vec<f64>,    // gradient of the primal barrier at s
     pub eta: Vec<f64>,            // third-order correction for (ds, dz)
     pub scaled_pd_ok: bool,
     pub hs_pd: Vec<Vec<f64>>,     // scaling matrix after update_scaling(s, z, mu, PrimalDual)
@@ -584,7 +584,7 @@ pub fn nonsym_cone_battery(
         }
         SupportedCone::GenPowerCone(k) => {
             out.primal_feasible = k.is_primal_feasible(s); out.dual_feasible = k.is_dual_feasible(z);
-            if out.primal_feasible { out.barrier_primal = k.barrier_primal(s); }
+            if out.primal_feasible { out.barrier_primal = k.barrier_primal(s); let mut g = vec![0.0; n]; k.gradient_primal(&mut g, s); out.grad_primal = g; }
             if out.dual_feasible { out.barrier_dual = k.barrier_dual(z); }
         }
         _ => return out,
